@@ -15,7 +15,8 @@ BOOL_OPTS = ["retain_names", "retain_coefficients", "sort_graded", "sort_reverse
 
 OPS = ["construct", "add", "sub_self", "mul", "pow", "derivative", "gradient", "call_num", "call_partial", "call_staged",
        "call_staged_none", "hessian", "divmod", "divmod_quotient", "divmod_remainder", "derivative2", "derivative_positions", "construct_mixed_dtypes", "getitem",
-       "align", "pickle", "sum", "concatenate", "where", "astype", "isconstant_tonumpy", "equal", "clean"]
+       "align", "pickle", "sum", "concatenate", "where", "astype", "isconstant_tonumpy", "equal", "clean",
+       "call_cancelled_mixed_dtypes", "constant_from_unsorted_terms"]
 # ordering-based functions: the sort options legitimately decide their result, every OTHER option must not
 ORDER_OPS = ["argmax", "argmin", "amax", "amin", "sortable_proxy", "lead_exponent", "lead_coefficient", "maximum", "greater", "sort_like"]
 
@@ -28,6 +29,8 @@ def gen(tier, rng):
             opts["display_exponent"] = rng.choice(["^", "**"])
             opts["display_multiply"] = rng.choice([" ", "*"])
         op = rng.choice(OPS + ORDER_OPS)
+        if op == "call_cancelled_mixed_dtypes":
+            opts["retain_names"] = True          # (the cancelled indeterminate must stay a legal keyword in both runs)
         if op.startswith("divmod"):
             # C15's quantifier: division is checked under the default retain options only
             opts["retain_names"], opts["retain_coefficients"] = True, False
@@ -122,6 +125,16 @@ def run_op(op, a, b, numpoly):
         return a == a
     if op == "clean":
         return numpoly.clean_attributes(a)
+    if op == "call_cancelled_mixed_dtypes":
+        # an indeterminate that survives only in a cancelled (all-zero) term, evaluated with a float for exactly that one: whether
+        # the zero term is stored (retain_coefficients) must not decide the dtype of the value
+        x = numpoly.variable(2)
+        p = 3 * x[0] ** 2 + x[1] - x[1] + (a.ravel()[:1] * 0)[0]
+        return p(**{"q0": numpy.array([1, 2, 3]), "q1": 0.5})
+    if op == "constant_from_unsorted_terms":
+        # a constant given with its (all-zero) higher terms first: where the constant term is stored must not matter
+        c = numpoly.polynomial({(2,): [0, 0], (1,): [0, 0], (0,): [4, 2]})
+        return (numpoly.variable(1) + 1) ** c[1] + numpoly.polynomial(c.tonumpy())
     if op in ORDER_OPS:
         # an array whose elements differ in more than one monomial, so that the monomial order matters
         x = numpoly.variable(3)
